@@ -27,6 +27,9 @@ pub enum AuxvPlan {
     BadPhdr,
     /// huge program header count
     HugePhnum,
+    /// caller-supplied program headers lead to an intact linker list in which one object's name is not
+    /// valid UTF-8 (a library loaded through such a path)
+    NonUtf8LibraryName,
 }
 
 #[derive(Debug, Clone, PartialEq, Eq, Hash, Serialize, Deserialize)]
@@ -115,6 +118,40 @@ pub fn check(c: &Case) -> Verdict {
         let id = b.add_thread(*kind, name.bytes(), st.base + 0x800, 77 + i as u64);
         ids.push((id, *kind));
     }
+    let mut synth: Option<(u64, u64)> = None;
+    if c.auxv == AuxvPlan::NonUtf8LibraryName {
+        use crate::vcore::arena::*;
+        use crate::vcore::dso::*;
+        let dc = DsoCase {
+            phnum: Phnum::True,
+            phdr_at: Place::Normal,
+            extra_phdrs: 1,
+            has_load: true,
+            load_vaddr: LoadVaddr::Zero,
+            has_dynamic: true,
+            dyn_at: Place::Normal,
+            extra_dyns: vec![(1, 1)],
+            has_debug: true,
+            dyn_null: true,
+            rdebug_at: Place::Normal,
+            r_version: 1,
+            r_brk: 0x1234,
+            r_state: 0,
+            r_ldbase: 0x5000,
+            chain: vec![
+                Link { l_addr: 0x10000, l_ld: 0x10100, name: LName::Utf8("/lib/libfine.so".into()) },
+                Link { l_addr: 0x20000, l_ld: 0x20100, name: LName::NonUtf8(vec![b'/', b'l', 0xff, 0xfe, b'.', b's', b'o']) },
+                Link { l_addr: 0x30000, l_ld: 0x30100, name: LName::Utf8("/lib/libafter.so".into()) },
+            ],
+            chain_end: ChainEnd::Null,
+            fill: 0,
+        };
+        let mut buf = BufArena(vec![0u8; ARENA_SIZE as usize]);
+        let (phnum, phdr, _) = lay_out(&dc, &mut buf);
+        b.add_content_at(ARENA, ARENA_PAGES, 3, buf.0);
+        b.add_anon_at(ARENA + ARENA_SIZE, 1, 0, 0);
+        synth = Some((phnum, phdr));
+    }
     let t = match Target::spawn(&b.spec, scratch) {
         Ok(t) => t,
         Err(e) => return Verdict::Inconclusive(format!("target setup: {}", e.split(':').next().unwrap_or(""))),
@@ -124,6 +161,11 @@ pub fn check(c: &Case) -> Verdict {
     }
     let pid = t.pid;
     let auxv = match c.auxv {
+        AuxvPlan::NonUtf8LibraryName => {
+            let a = true_auxv(pid);
+            let (phnum, phdr) = synth.unwrap();
+            Some([phnum, phdr, a[2], a[3]])
+        }
         AuxvPlan::Kernel => None,
         AuxvPlan::TrueDirect => Some(true_auxv(pid)),
         AuxvPlan::BadPhdr => {
@@ -231,7 +273,7 @@ pub fn check(c: &Case) -> Verdict {
         }
     }
     match c.auxv {
-        AuxvPlan::BadPhdr | AuxvPlan::HugePhnum => {
+        AuxvPlan::BadPhdr | AuxvPlan::HugePhnum | AuxvPlan::NonUtf8LibraryName => {
             natural.insert("WriteDSODebugStreamFailed".into(), 1);
         }
         _ => {}
@@ -405,7 +447,7 @@ pub fn check(c: &Case) -> Verdict {
     if !seized.is_empty() {
         classes.push(if want.contains_key("SuspendNoThreadsLeft") { "natural:no-thread-attachable" } else { "natural:thread-held-by-foreign-tracer" }.into());
     }
-    if matches!(c.auxv, AuxvPlan::BadPhdr | AuxvPlan::HugePhnum) {
+    if matches!(c.auxv, AuxvPlan::BadPhdr | AuxvPlan::HugePhnum | AuxvPlan::NonUtf8LibraryName) {
         classes.push("natural:bad-linker-data".into());
     }
     let suite_tested = c.failmask == FS_STOP || c.failmask == 31;
@@ -449,7 +491,7 @@ fn enum_cases() -> impl Iterator<Item = Case> {
 }
 
 pub fn run(ctx: &mut LaneCtx) {
-    ctx.assume("expected-error model: Stop -> InitErrors/StopProcessFailed; FillMissingAuxvInfo -> InitErrors/FillMissingAuxvInfoErrors (only when the auxv info is not already complete); ThreadName -> one ReadThreadNameFailed per thread; SuspendThreads -> PtraceAttachError(1234); CpuInfoFileOpen -> WriteCpuInformationFailed; non-UTF-8 comm -> ReadThreadNameFailed; null-SP thread -> DetachSkippedThread(tid); vanished thread -> PtraceAttachError(tid) or WaitPidError(tid); unreadable linker data -> WriteDSODebugStreamFailed; StopProcessFailed(Timeout) is environmental and tolerated");
+    ctx.assume("expected-error model: Stop -> InitErrors/StopProcessFailed; FillMissingAuxvInfo -> InitErrors/FillMissingAuxvInfoErrors (only when the auxv info is not already complete); ThreadName -> one ReadThreadNameFailed per thread; SuspendThreads -> PtraceAttachError(1234); CpuInfoFileOpen -> WriteCpuInformationFailed; non-UTF-8 comm -> ReadThreadNameFailed; null-SP thread -> DetachSkippedThread(tid); vanished thread -> PtraceAttachError(tid) or WaitPidError(tid); unreadable linker data or a library name that is not UTF-8 -> WriteDSODebugStreamFailed; StopProcessFailed(Timeout) is environmental and tolerated");
     ctx.assume("threads can only exit between enumeration and attach when the process was not stopped, so exiter schedules are exercised with the StopProcess fail point on; a target whose kernel auxv lacks entries cannot be manufactured (PR_SET_MM_AUXV is not permitted here)");
     ctx.run_enum(
         "failspot-subsets",
@@ -462,7 +504,7 @@ pub fn run(ctx: &mut LaneCtx) {
             name: "generated",
             cases: (800, 20_000),
             rule: "generated targets (0..8 extra threads of kinds parked/sleeper/null-sp/exiter with unset/UTF-8/non-UTF-8 names) x fail-point subset x auxv plan x exiter cue x a subset of threads (possibly all, possibly the main thread) held by a foreign tracer so that attaching to them fails; oracle = expected-error model equality + all other streams equal to the fault-free dump of the same target; non-trivial as above; distinct = hash of case",
-            strategy: (0u8..32, proptest::collection::vec(thread_strategy(), 0..9), any::<bool>(), prop_oneof![3 => Just(AuxvPlan::Kernel), 1 => Just(AuxvPlan::TrueDirect), 1 => Just(AuxvPlan::BadPhdr), 1 => Just(AuxvPlan::HugePhnum)], prop_oneof![5 => Just(0u16), 3 => any::<u16>().prop_map(|m| m & 0x1fe), 1 => any::<u16>(), 1 => Just(0xffffu16)])
+            strategy: (0u8..32, proptest::collection::vec(thread_strategy(), 0..9), any::<bool>(), prop_oneof![3 => Just(AuxvPlan::Kernel), 1 => Just(AuxvPlan::TrueDirect), 1 => Just(AuxvPlan::BadPhdr), 1 => Just(AuxvPlan::HugePhnum), 1 => Just(AuxvPlan::NonUtf8LibraryName)], prop_oneof![5 => Just(0u16), 3 => any::<u16>().prop_map(|m| m & 0x1fe), 1 => any::<u16>(), 1 => Just(0xffffu16)])
                 .prop_map(|(failmask, threads, cue_exiters, auxv, seized)| fix(Case { failmask, threads, cue_exiters, auxv, seized }))
                 .boxed(),
             max_shrink_iters: 200,
